@@ -68,6 +68,9 @@ SPAN_LA = {'COMMENT_ML': r"(?P<END_COMMENT>(\*[^/]|[^*])*?)(?=\*/)"}
 # closed by 'x*/' - a small x (the span regexp is the user's own regular expression: it has no such flag)
 TOK_CI = "(?i)" + TOK
 SPAN_CI = {'COMMENT_ML': r"(?P<END_COMMENT>((?!x\*/).)*)x\*/"}
+# a block comment that is closed by '<<<' or by the first empty line (the closer regexp matches an empty line)
+TOK_BL = TOK.replace("(?P<COMMENT_ML>/\\*)", "(?P<COMMENT_ML>>>>)")
+SPAN_BL = {'COMMENT_ML': r"(?P<END_COMMENT>.*?)(?:<<<|^$)"}
 SYN = {'COMMENT_EOL': 'COMMENT', 'COMMENT_ML': 'COMMENT', 'SEMI': ';', 'LP': '(', 'RP': ')'}
 SPAN_TWO['COMMENT_ML'] = SPAN['COMMENT_ML']
 SYN_TWO = dict(SYN, COMMENT_P='COMMENT')
@@ -127,6 +130,8 @@ CONFIGS = [
          kept=set(), closer_is_token=True),
     dict(name="inline-flag-in-the-tokenizer-pattern", tok=TOK_CI, span=SPAN_CI, syn=SYN, skip=None, prods=STMT_PRODS,
          stmt=True, kept=set(), ml=("/*", "x*/"), ml_bodies=True),
+    dict(name="block-closed-by-an-empty-line", tok=TOK_BL, span=SPAN_BL, syn=SYN, skip=None, prods=STMT_PRODS,
+         stmt=True, kept=set(), ml=(">>>", "<<<"), blank_line_closes=True),
     dict(name="only-blanks-are-space", tok=TOK_NARROW, span=SPAN, syn=SYN, skip=None, prods=STMT_PRODS,
          stmt=True, kept=set(), narrow=True),
 ]
@@ -236,6 +241,15 @@ def gen_pieces(rng, cfg):
                 if cfg.get("closer_is_token"):
                     out.append(("tok", "COMMENT", opener + rng.choice(ML_BODIES)))
                     out.append(("tok", "COMMENT", closer))
+                    continue
+                if cfg.get("blank_line_closes"):
+                    body = rng.choice(["", " x ", " a\nb ", " 1\n 2\n 3 ", " é\n\t* z ", " ; \" "])
+                    if rng.random() < 0.5:
+                        # the block runs up to the first empty line (which closes it and is an empty line)
+                        out.append(("tok", "COMMENT", opener + body + "\n"))
+                        out.append(("nl", None, "\n"))
+                    else:
+                        out.append(("tok", "COMMENT", opener + body + closer))
                     continue
                 out.append(("tok", "COMMENT", opener + rng.choice(ML_BODIES_X if cfg.get("ml_bodies") else ML_BODIES)
                             + closer))
@@ -387,7 +401,10 @@ def judge(ctx, cfg_id, pieces, form, case):
         return   # a str text is right-stripped line by line: trailing whitespace never reaches the tokenizer
     if bad:
         try:
-            parser.parse(make_src(), do_cleanup=False)
+            # (every other such text is named for the diagnostics - by a file name with a per cent sign in it)
+            parser.parse(make_src(), do_cleanup=False,
+                         **({'src_name': ("rates 5%.txt", "notes%20v2.txt", "%s", "100%d{0}")[len(text) % 4]}
+                            if len(text) % 2 else {}))
         except llparser.LexicalError as err:
             ctx.count("lexical_errors_checked")
             if err.src_pos.line != bad[0][1][0]:
@@ -785,7 +802,8 @@ def run_shard(ctx):
             # one line is longer than 65535 characters: columns beyond any 16-bit field
             k = rng.randrange(len(pieces))
             while k > 0 and (pieces[k - 1][2].startswith("//") or (
-                    CONFIGS[cfg_id].get("closer_is_token") and pieces[k - 1][2].startswith("/*"))):
+                    CONFIGS[cfg_id].get("closer_is_token") and pieces[k - 1][2].startswith("/*")) or (
+                    CONFIGS[cfg_id].get("blank_line_closes") and pieces[k - 1][2].startswith(">>>"))):
                 k -= 1
             pieces.insert(k, ("blank", "SPACE", " " * rng.choice([65534, 65536, 70000])))
             merged = []
@@ -812,6 +830,9 @@ def run_shard(ctx):
                 pos -= 1  # anything behind '//' belongs to the comment
             while pos > 0 and CONFIGS[cfg_id].get("closer_is_token") and pieces[pos - 1][2].startswith("/*"):
                 pos -= 1  # (here the closing mark is a piece of its own: in front of it one is inside the comment)
+            while pos > 0 and CONFIGS[cfg_id].get("blank_line_closes") and pieces[pos - 1][2].startswith(">>>") and \
+                    pieces[pos - 1][2].endswith("\n"):
+                pos -= 1  # (the empty line that closes the block has to stay empty)
             pieces.insert(pos, ("bad", None, rng.choice(["@", "$", "%", "/ ", "}", "\ufeff", "\x00", "\ufeff"])))
         run_case(ctx, cfg_id, pieces, smart=rng.random() < 0.5)
         if i in (0, 1, 7):
